@@ -619,6 +619,27 @@ func (e *Engine) modularCall(c *CallCtx, ct *Contract) *Term {
 		e.applyModifies(c, cl, pre)
 	}
 	res := e.freshOfType(c.st, c.resT, "res:"+fn.Name())
+	// (proved for every function under contract, see verifyFunction)
+	noteNotGlobal := func(rv *Term) {
+		var obj *Term
+		switch rv.Sort {
+		case LocS:
+			obj = LocObj(rv)
+		case SliceS:
+			obj = LocObj(SliceBase(rv))
+		}
+		if obj != nil && e.inputLow != nil {
+			NoteNilOrGe(obj, e.inputLow)
+			e.axiom(Or(Eq(obj, IntT(0)), Ge(obj, e.inputLow)))
+		}
+	}
+	if res.Op == "tuple" {
+		for _, x := range res.Elems {
+			noteNotGlobal(x)
+		}
+	} else {
+		noteNotGlobal(res)
+	}
 	var resArgs []*Term
 	if res.Op == "tuple" {
 		resArgs = res.Elems
@@ -632,6 +653,13 @@ func (e *Engine) modularCall(c *CallCtx, ct *Contract) *Term {
 		// a postcondition of the form  result == <term>  determines the result:
 		// use the term itself (keeps object identities syntactic)
 		for _, cj := range conj(g) {
+			// fresh(x) has the shape  bound <= obj(x): remember it for the
+			// syntactic comparison of object identities
+			if cj.Op == "<=" && len(cj.Args) == 2 && cj.Args[1].Op == "sel:obj" && c.pc.IsTrue() == c.pc.IsTrue() {
+				if _, has := lowerBounds[cj.Args[1].id]; !has {
+					NoteLowerBound(cj.Args[1], cj.Args[0])
+				}
+			}
 			if cj.Op == "=" {
 				for _, r := range resArgs {
 					if cj.Args[0] == r && cj.Args[1].Op != "sym" {
